@@ -686,20 +686,34 @@ pub struct Cross {
 pub fn cross_cases() -> Vec<Cross> {
     let mut v = vec![];
     for cmd in 0..9 {
-        for payload in 0..CROSS_PAYLOADS.len() {
-            for order in 0..4u8 {
+        for payload in 0..CROSS_PAYLOADS.len() + 28 {
+            for order in 0..5u8 {
                 v.push(Cross { cmd, payload, order });
             }
         }
     }
     v
 }
+/// payloads 0..14 are the fixed ones; 14..28 are 17 bytes (the size of an INIT answer) holding the
+/// OTHER channel's id in little-endian at offset 0..13, 28..42 the same in big-endian: what a message
+/// says about another channel is content, not an instruction to the receiver
+fn cross_payload(idx: usize, other: u32) -> Vec<u8> {
+    if idx < CROSS_PAYLOADS.len() {
+        return CROSS_PAYLOADS[idx].to_vec();
+    }
+    let k = idx - CROSS_PAYLOADS.len();
+    let mut p: Vec<u8> = (0..17u8).map(|i| 0xA0 + i).collect();
+    let (off, bytes) = if k < 14 { (k, other.to_le_bytes()) } else { ((k - 14) % 14, other.to_be_bytes()) };
+    p[off..off + 4].copy_from_slice(&bytes);
+    p
+}
 pub fn eval_cross(c: &Cross) -> Vec<Finding> {
     let case = json!({"cross_command": c});
     let (cmd, byte) = COMMANDS[c.cmd % 9];
-    let a_ch = 0x0a0a_0001u32;
+    // order 4: as order 1 with the broadcast channel as the sender of the short message
+    let a_ch = if c.order == 4 { 0xffff_ffffu32 } else { 0x0a0a_0001u32 };
     let b_ch = if c.order == 3 { 0xffff_ffffu32 } else { 0x0b0b_0002u32 };
-    let a_payload = CROSS_PAYLOADS[c.payload % CROSS_PAYLOADS.len()].to_vec();
+    let a_payload = cross_payload(c.payload, b_ch);
     let b_payload: Vec<u8> = (0..100u8).collect();
     let a2_payload: Vec<u8> = (0..70u8).map(|i| i ^ 0x5a).collect();
     let r = par::catch(|| -> Result<Option<String>, String> {
@@ -719,7 +733,7 @@ pub fn eval_cross(c: &Cross) -> Vec<Finding> {
         let b_want = (b_ch, 0x81u8, b_payload.clone());
         let a2_want = (a_ch, 0x90u8, a2_payload.clone());
         match c.order {
-            1 => {
+            1 | 4 => {
                 seq.push((bp[0].clone(), None));
                 whole(&ap, a_want.clone(), &mut seq);
                 for (i, p) in bp.iter().enumerate().skip(1) {
@@ -1006,7 +1020,7 @@ pub fn run(ctx: &Ctx) -> Result<Run, String> {
     stats.samples.push(json!({"starve": sv[sv.len() / 2]}));
     let mut run = Run::from_stats(
         "model_checking",
-        "single channel: every payload length 0..7700 and 65535/65536/70000 (all 9 commands x 4 channel ids at the boundary lengths, rotating command/channel and 3 content patterns elsewhere): written into a Vec, into a writer that only implements write/flush (same bytes) and into a buffering adapter that hands each flush as one report to a report-oriented device (the receiver fed with 64 bytes of each report gets the message); written bytes parsed by the harness (64-byte packets, header layout, sequence numbers, zero padding, packet count) and fed to a fresh receiver, and the message the receiver delivers is sent again (must be written as the same packets); interleavings: stateright BFS whose state is the real ChannelHandler (cloned via the verif hook) plus the next-packet index per stream, over all combinations of 2, 3 and 4 concurrently transmitting channels with payload lengths from {0,57,58,116,117,175,234} (1..4 packets; thorough adds streams of 5 and 6 packets for 2 and 3 channels), channels sending two messages back to back, and one stray continuation packet for an idle channel at any point; deduplicated on (indices, hook snapshot); run twice with different thread counts; cross-checked by a hook-free enumeration of all complete interleavings for 2 and 3 channels; many channels: 1..300 (thorough 4096) channels each start a two-packet message (the first optionally twice) and then complete, in channel order and in reverse – every message is delivered; abandoned messages: a channel sends the initialisation packet and 0..5 continuation packets of a message of 117..7608 bytes and then starts over with another message of 0..7608 bytes, twice - each is delivered as by a fresh receiver; a long-lived receiver: 600 000 (thorough 6 000 000) completed messages of 1..3 packets on three channels through ONE handler, each delivered unaltered, and after 1, 2, 4, ... and all of them the maximal 7608-byte message is still reassembled; commands across channels: a complete message of each of the 9 commands with 14 short payloads (empty, single bytes 0/1/2/5/10/11/0x7f/0xff, pairs, 4, 8 and 17 bytes) on one channel before, inside or twice before a two-packet message of another channel (also the broadcast channel), followed by a further message of the first channel - every message is delivered, unaltered, by its own last packet; failing writers: a write call fails at any of the first eight / last two packets with five error kinds, once or from then on – success is never reported for a message the writer did not receive in full and in order; starvation: a 3-packet message held back after its first / second packet while other channels send every number of packets 0..300 (thorough 0..1100) and 1024, 2048, 4096, 10000 as whole messages in three traffic shapes (maximal messages, two channels alternating single packets, 2-packet messages), each of which must be delivered too",
+        "single channel: every payload length 0..7700 and 65535/65536/70000 (all 9 commands x 4 channel ids at the boundary lengths, rotating command/channel and 3 content patterns elsewhere): written into a Vec, into a writer that only implements write/flush (same bytes) and into a buffering adapter that hands each flush as one report to a report-oriented device (the receiver fed with 64 bytes of each report gets the message); written bytes parsed by the harness (64-byte packets, header layout, sequence numbers, zero padding, packet count) and fed to a fresh receiver, and the message the receiver delivers is sent again (must be written as the same packets); interleavings: stateright BFS whose state is the real ChannelHandler (cloned via the verif hook) plus the next-packet index per stream, over all combinations of 2, 3 and 4 concurrently transmitting channels with payload lengths from {0,57,58,116,117,175,234} (1..4 packets; thorough adds streams of 5 and 6 packets for 2 and 3 channels), channels sending two messages back to back, and one stray continuation packet for an idle channel at any point; deduplicated on (indices, hook snapshot); run twice with different thread counts; cross-checked by a hook-free enumeration of all complete interleavings for 2 and 3 channels; many channels: 1..300 (thorough 4096) channels each start a two-packet message (the first optionally twice) and then complete, in channel order and in reverse – every message is delivered; abandoned messages: a channel sends the initialisation packet and 0..5 continuation packets of a message of 117..7608 bytes and then starts over with another message of 0..7608 bytes, twice - each is delivered as by a fresh receiver; a long-lived receiver: 600 000 (thorough 6 000 000) completed messages of 1..3 packets on three channels through ONE handler, each delivered unaltered, and after 1, 2, 4, ... and all of them the maximal 7608-byte message is still reassembled; commands across channels: a complete message of each of the 9 commands with 14 short payloads (empty, single bytes 0/1/2/5/10/11/0x7f/0xff, pairs, 4, 8 and 17 bytes, and 17-byte payloads holding the other channel's id at every offset in both byte orders) on one channel (also sent from the broadcast channel) before, inside or twice before a two-packet message of another channel (also the broadcast channel), followed by a further message of the first channel - every message is delivered, unaltered, by its own last packet; failing writers: a write call fails at any of the first eight / last two packets with five error kinds, once or from then on – success is never reported for a message the writer did not receive in full and in order; starvation: a 3-packet message held back after its first / second packet while other channels send every number of packets 0..300 (thorough 0..1100) and 1024, 2048, 4096, 10000 as whole messages in three traffic shapes (maximal messages, two channels alternating single packets, 2-packet messages), each of which must be delivered too",
         true,
         stats,
     );
